@@ -52,6 +52,16 @@ class CallInfo(object):
                                     ekey(self.node)[:40])
 
 
+def _wrap(atom, limit=3):
+    """('L', atom) -- widened: beyond `limit` levels of list nesting the atom is kept as it is, so that `w[:-1] = v; return w` applied to its own result
+    (self.v = extended(self.v, x)) reaches a fixpoint."""
+    d, a = 0, atom
+    while a[0] == "L":
+        d += 1
+        a = a[1]
+    return atom if d >= limit else ("L", atom)
+
+
 class Binding(object):
     """Result of binding a call's arguments to a callee signature."""
 
@@ -383,7 +393,7 @@ class Resolver(object):
                 self._assign(fi, t, sub)
         elif isinstance(target, ast.Subscript):
             # container element store: x[i] = v  -> x may contain v
-            elem = set(("L", a) for a in atoms if a[0] not in ("N",))
+            elem = set(_wrap(a) for a in atoms if a[0] not in ("N",))
             if elem:
                 self._assign(fi, target.value, elem)
         elif isinstance(target, ast.Starred):
@@ -424,7 +434,7 @@ class Resolver(object):
             if f.attr == "extend":
                 elem = set(a for a in atoms if a[0] == "L")
             else:
-                elem = set(("L", a) for a in atoms if a[0] != "N")
+                elem = set(_wrap(a) for a in atoms if a[0] != "N")
             if elem:
                 self._assign(fi, f.value, elem)
         for a in self.callee_atoms(fi, call):
